@@ -23,6 +23,7 @@ import (
 	"regexp"
 	"sort"
 	"strings"
+	"time"
 
 	"github.com/elliotchance/orderedmap/v3"
 	"github.com/schollz/progressbar/v3"
@@ -69,8 +70,9 @@ type vworld struct {
 
 type vhost struct {
 	Status int    `json:"status"`
-	Body   string `json:"body"` // base64
-	Cut    int    `json:"cut"`  // -1: whole body; else close the connection after that many body bytes
+	Body   string `json:"body"`   // base64
+	Cut    int    `json:"cut"`    // -1: whole body; else close the connection after that many body bytes
+	Cancel bool   `json:"cancel"` // send half of the body, then cancel the CALLER's context (time-out / interrupt while this host is in flight)
 }
 
 func vb64(s string) []byte {
@@ -223,6 +225,8 @@ func vatlas(rq *vreq) (res map[string]any) {
 	}
 	var log []reqlog
 	hostIdx := 0
+	ctx, cancelCtx := context.WithCancel(context.Background())
+	defer cancelCtx()
 	srv := httptest.NewServer(http.HandlerFunc(func(rw http.ResponseWriter, r *http.Request) {
 		auth := r.Header.Get("Authorization")
 		log = append(log, reqlog{r.Method, r.URL.Path, r.URL.RawQuery, auth != "", r.Header.Get("Accept")})
@@ -252,6 +256,17 @@ func vatlas(rq *vreq) (res map[string]any) {
 			rw.Write(body)
 			return
 		}
+		if h.Cancel {
+			rw.Header().Set("Content-Length", fmt.Sprint(len(body)))
+			rw.WriteHeader(200)
+			rw.Write(body[:len(body)/2])
+			if f, ok := rw.(http.Flusher); ok {
+				f.Flush()
+			}
+			cancelCtx()
+			time.Sleep(150 * time.Millisecond)
+			return
+		}
 		if h.Cut >= 0 && h.Cut < len(body) {
 			rw.Header().Set("Content-Length", fmt.Sprint(len(body)))
 			rw.WriteHeader(200)
@@ -273,7 +288,7 @@ func vatlas(rq *vreq) (res map[string]any) {
 	os.Setenv("TMPDIR", w.Tmp)
 	client := NewAtlasClient(nil)
 	client.BaseURL = srv.URL
-	files, err := client.DownloadClusterLogs(context.Background(), w.Pub, w.Priv, w.Project, w.Name, w.Start, w.End)
+	files, err := client.DownloadClusterLogs(ctx, w.Pub, w.Priv, w.Project, w.Name, w.Start, w.End)
 	e := ""
 	if err != nil {
 		e = err.Error()
